@@ -50,6 +50,10 @@ TRUSTED = [
     "model <-> /repo, measured by this tie",
     "translator T3 in harness/props/c06.py (ast-parser of the generated generator source, built on C04's) — "
     "self-tested on seeded source edits (extra check) and cross-checked by the I/O differential on every case",
+    "two-call histories: what a call leaves in the filter object (`advance`: every coefficient Stream where the "
+    "generated loop left its iterator; `denAfterCall`: the variable-gain path executes `den[0] = 0` on the alias "
+    "`den = self.denpoly`) is modelled by hand from LinearFilter.__call__ and measured by the entry call2 of this "
+    "tie (outputs / error of the second call, powers of denpoly after the first call, pull counts over both calls)",
     "itertools.tee / StreamTeeHub are modelled as independent iterators over the same items; that the underlying "
     "source is advanced once per sample is measured by the counting sources of this tie",
 ]
@@ -76,7 +80,7 @@ MANIFEST = {
                  "difference equation with the n-th coefficient values over unbounded histories = the indexed "
                  "sentence of the property; variable-gain rewriting; element-wise algebra through the C07 Laurent "
                  "homomorphism) + translator tie T3 + exact I/O and pull-count differential",
-    "note": "39 theorems, nothing PENDING: the end-to-end statement from raw constructor pairs "
+    "note": "40 theorems, nothing PENDING: the end-to-end statement from raw constructor pairs "
             "(filterCallTV_eq_specCallTV) is proved with C04's dictionary lemmas generalised to any coefficient type; "
             "the all-zero filter with a Stream gain is stated exactly (C06.9) and is the only object excluded from "
             "call_ends_with_shortest; two-call histories: second_call_continues (constant gain) and the defect D16 "
